@@ -63,6 +63,12 @@ from pdfminer.utils import (
 log = logging.getLogger(__name__)
 
 
+
+def _finite(value: float) -> float:
+    """A number that "%d" can format: infinities and NaN (from operands of
+    hundreds of digits) become 0."""
+    return value if value == value and abs(value) != float("inf") else 0
+
 class PDFLayoutAnalyzer(PDFTextDevice):
     cur_item: LTLayoutContainer
     ctm: Matrix
@@ -792,19 +798,19 @@ class XMLConverter(PDFConverter[AnyIO]):
                 self.write("</page>\n")
             elif isinstance(item, LTLine):
                 s = '<line linewidth="%d" bbox="%s" />\n' % (
-                    item.linewidth,
+                    _finite(item.linewidth),
                     bbox2str(item.bbox),
                 )
                 self.write(s)
             elif isinstance(item, LTRect):
                 s = '<rect linewidth="%d" bbox="%s" />\n' % (
-                    item.linewidth,
+                    _finite(item.linewidth),
                     bbox2str(item.bbox),
                 )
                 self.write(s)
             elif isinstance(item, LTCurve):
                 s = '<curve linewidth="%d" bbox="%s" pts="%s"/>\n' % (
-                    item.linewidth,
+                    _finite(item.linewidth),
                     bbox2str(item.bbox),
                     item.get_pts(),
                 )
